@@ -5,10 +5,16 @@ import SlugModel.Lemmas.Prune
 # Lemmas/WalkFilter — the ignore rules at the level of the walks
 
 Helper lemmas for `Props/C03w`.
-* `wf_visit_excluded`, `wf_visit_eq`: the Pack callback on an excluded path, and in normal form for a
-  walk without dereferencing (`root = src = dst`).
+* `wf_visit_excluded`, `wf_visit_dir_excluded`: the Pack callback on a node whose ARCHIVE path (the
+  path relative to `root` after the `src ↦ dst` replacement) is excluded — any options, any
+  `root`/`src`/`dst` (the rules see the archive path: repair of finding F43);
+  `wf_visit_excluded_same`, `wf_visit_eq`: for a walk without dereferencing (`root = src = dst`),
+  where the archive path is the path relative to the source; the callback in normal form.
 * `WfNew`, `WfShipOK`, `wf_walk_ship`, `wf_pack_ship`: every entry the walk writes passed the ignore
-  tests (the secrecy direction; no hypothesis on the tree or the rules).
+  tests (the secrecy direction; no hypothesis on the tree or the rules); `wf_walk_ship_all`,
+  `wf_pack_ship_any`: the same for ANY options — dereferencing on, any nesting of dereferenced
+  directories (the options are quantified inside the induction: a nested walk runs with a longer
+  `visiting` list).
 * `wfKept`, `wfPruned`, `wfOpenFrom`, `WfCtx`, `WfSub`, `wf_walk`, `wf_pack_ships`: for a physical
   source directory without dereferencing, exactly which nodes ship, for any rule set — own path not
   excluded and no ancestor directory skipped (the analogue of `rt_walk` with a rule set);
@@ -22,24 +28,42 @@ Helper lemmas for `Props/C03w`.
 -/
 namespace Slug
 
+/-- the callback on a node whose ARCHIVE path `sub` (the path relative to `root` after the
+`src ↦ dst` replacement — the name the entry would get) is excluded: nothing is written, the walk
+goes on.  Any options, any `root`/`src`/`dst` (so also inside a dereferenced directory; before the
+repair of finding F43 the rules were matched against `sub0`, the path relative to `src`). -/
 theorem wf_visit_excluded (fs : FS) (cwd : Str) (o : PackOpts) (rules : Option (List Rule)) (root src dst : Str)
-    (fuel : Nat) (path : Str) (node : Node) (st : PState) (sub0 : Str)
-    (h1 : pathRel src path = some sub0) (h2 : (ruleExcludes rules sub0).1 = true) :
+    (fuel : Nat) (path : Str) (node : Node) (st : PState) (sub0 sub : Str)
+    (h1 : pathRel src path = some sub0) (h4 : pathRel root (replaceFirst path src dst) = some sub)
+    (h2 : (ruleExcludes rules sub).1 = true) :
     visit fs cwd o rules root src dst (fuel + 1) path node st = (st, .cont) := by
-  cases node <;> rw [visit] <;> first | (intro _ _ h; cases h) | simp [h1, h2]
-
-/-- a directory whose path with a trailing slash is excluded: nothing is written for it; the walk
-skips it when the match dominates and descends otherwise -/
-theorem wf_visit_dir_excluded (fs : FS) (cwd : Str) (o : PackOpts) (rules : Option (List Rule)) (root src dst : Str)
-    (fuel : Nat) (path : Str) (perm : Nat) (mt : Int) (st : PState) (sub0 : Str)
-    (h1 : pathRel src path = some sub0) (h3 : (ruleExcludes rules (sub0 ++ ['/'])).1 = true) :
-    visit fs cwd o rules root src dst (fuel + 1) path (.dir perm mt) st =
-      (st, if sub0 = dot ∨ (ruleExcludes rules sub0).1 = true then .cont
-           else if (ruleExcludes rules (sub0 ++ ['/'])).2 then .skipDir else .cont) := by
-  rw [visit]
   by_cases hdot : sub0 = dot
-  · simp [h1, hdot]
-  · cases h2 : (ruleExcludes rules sub0).1 <;> simp [h1, hdot, h2, h3]
+  · cases node <;> rw [visit] <;> first | (intro _ _ h; cases h) | simp [h1, hdot]
+  · exact pk_visit_excluded_emits_nothing fs cwd o rules root src dst fuel path node st sub0 sub h1 hdot h4 h2
+
+/-- `wf_visit_excluded` for a walk without dereferencing (`root = src = dst`): the archive path is
+the path relative to the source -/
+theorem wf_visit_excluded_same (fs : FS) (cwd : Str) (o : PackOpts) (rules : Option (List Rule)) (R : Str)
+    (fuel : Nat) (path : Str) (node : Node) (st : PState) (sub : Str)
+    (h1 : pathRel R path = some sub) (h2 : (ruleExcludes rules sub).1 = true) :
+    visit fs cwd o rules R R R (fuel + 1) path node st = (st, .cont) :=
+  wf_visit_excluded fs cwd o rules R R R fuel path node st sub sub h1 (by rw [rt_replaceFirst_same]; exact h1) h2
+
+/-- a directory whose archive path with a trailing slash is excluded: nothing is written for it; the
+walk skips it when the match dominates and descends otherwise -/
+theorem wf_visit_dir_excluded (fs : FS) (cwd : Str) (o : PackOpts) (rules : Option (List Rule)) (root src dst : Str)
+    (fuel : Nat) (path : Str) (perm : Nat) (mt : Int) (st : PState) (sub0 sub : Str)
+    (h1 : pathRel src path = some sub0) (h4 : pathRel root (replaceFirst path src dst) = some sub)
+    (h3 : (ruleExcludes rules (sub ++ ['/'])).1 = true) :
+    visit fs cwd o rules root src dst (fuel + 1) path (.dir perm mt) st =
+      (st, if sub0 = dot ∨ sub = dot ∨ (ruleExcludes rules sub).1 = true then .cont
+           else if (ruleExcludes rules (sub ++ ['/'])).2 then .skipDir else .cont) := by
+  rw [visit]
+  by_cases hdot0 : sub0 = dot
+  · simp [h1, hdot0]
+  · by_cases hdot : sub = dot
+    · simp [h1, h4, hdot0, hdot]
+    · cases h2 : (ruleExcludes rules sub).1 <;> simp [h1, h4, hdot0, hdot, h2, h3]
 
 def wfIsDir : Node → Bool
   | .dir _ _ => true
@@ -82,7 +106,9 @@ theorem wf_visit_eq (fs : FS) (cwd : Str) (o : PackOpts) (rules : Option (List R
     by_cases h1 : sub = dot
     · cases node <;> rw [visit] <;> first | (intro _ _ h; cases h) | simp [hrel, h1]
     · cases h2 : (ruleExcludes rules sub).1 with
-      | true => cases node <;> rw [visit] <;> first | (intro _ _ h; cases h) | simp [hrel, h1, h2]
+      | true =>
+        rw [wf_visit_excluded_same fs cwd o rules R fuel path node st sub hrel h2]
+        simp [h1, h2]
       | false =>
         cases node with
         | special =>
@@ -245,6 +271,108 @@ theorem wf_pack_ship (fs : FS) (cwd : Str) (o : PackOpts) (src : Str) (hd : o.de
   intro e he
   rw [e1] at he
   exact hL e (by simpa [pkEmpty] using he)
+
+/-! ### the same for any options (the rules see the archive path: repair of finding F43) -/
+
+theorem wf_visit_ship_all (fs : FS) (cwd : Str) (rules : Option (List Rule)) (root : Str) (fuel : Nat)
+    (ihN : ∀ (o : PackOpts) src dst path node st,
+      WfNew (WfShipOK rules) st (walkNode fs cwd o rules root src dst fuel path node st).1) :
+    ∀ (o : PackOpts) src dst path node st,
+      WfNew (WfShipOK rules) st (visit fs cwd o rules root src dst (fuel + 1) path node st).1 := by
+  intro o src dst path node st
+  cases node <;> rw [visit] <;> first | (intro _ _ h; cases h) | skip
+  all_goals simp only [↓reduceIte, Bool.false_eq_true]
+  all_goals repeat' split
+  all_goals first | exact .refl _ _ | exact ihN _ _ _ _ _ _ | skip
+  all_goals
+    have hrs := rt_pathRel_sub _ _ _ ‹pathRel root (replaceFirst _ _ _) = some _› ‹_›
+  · rename_i hex hexd
+    exact wfNew_push _ _ _ _ ⟨_, hrs.1, hrs.2, by simpa using hex, Or.inl ⟨rfl, rfl, by simpa using hexd⟩⟩
+  · rename_i hex _ _ _
+    exact wfNew_push _ _ _ _ ⟨_, hrs.1, hrs.2, by simpa using hex, Or.inr ⟨by simp [tReg, tDir], rfl⟩⟩
+  · rename_i hex _
+    exact wfNew_push _ _ _ _ ⟨_, hrs.1, hrs.2, by simpa using hex, Or.inr ⟨by simp [tSymlink, tDir], rfl⟩⟩
+  · rename_i hex _ _ _ _ _ _ _ _ _ _ _ _
+    exact wfNew_push _ _ _ _ ⟨_, hrs.1, hrs.2, by simpa using hex, Or.inr ⟨by simp [tReg, tDir], rfl⟩⟩
+
+/-- every entry the walk appends — any options, any `src`/`dst`, any nesting of dereferenced
+directories — was written for an archive path that passed the ignore tests (`WfShipOK`: the
+strengthening of `PkNotExcluded` of Lemmas/PackInv by "the path is a result of `filepath.Rel`": not
+empty, no trailing separator; and the entry type) -/
+theorem wf_walk_ship_all (fs : FS) (cwd : Str) (rules : Option (List Rule)) (root : Str) :
+    ∀ fuel : Nat,
+      (∀ (o : PackOpts) src dst path node st,
+        WfNew (WfShipOK rules) st (walkNode fs cwd o rules root src dst fuel path node st).1) ∧
+      (∀ (o : PackOpts) src dst path names st,
+        WfNew (WfShipOK rules) st (walkChildren fs cwd o rules root src dst fuel path names st).1) ∧
+      (∀ (o : PackOpts) src dst path node st,
+        WfNew (WfShipOK rules) st (visit fs cwd o rules root src dst fuel path node st).1) := by
+  intro fuel
+  induction fuel with
+  | zero =>
+    refine ⟨?_, ?_, ?_⟩
+    · intro o src dst path node st; rw [walkNode]; exact .refl _ _
+    · intro o src dst path names st; rw [walkChildren]; exact .refl _ _
+    · intro o src dst path node st; rw [visit]; exact .refl _ _
+  | succ fuel ih =>
+    obtain ⟨ihN, ihC, ihV⟩ := ih
+    refine ⟨?_, ?_, ?_⟩
+    · intro o src dst path node st
+      have hv := ihV o src dst path node st
+      cases node with
+      | dir perm mt =>
+        rw [walkNode]
+        simp only
+        split
+        · split
+          · exact hv
+          · exact hv.trans (ihC _ _ _ _ _ _)
+        · exact hv
+      | file perm mt c => rw [walkNode]; exact hv; intro _ _ h; cases h
+      | link t => rw [walkNode]; exact hv; intro _ _ h; cases h
+      | special => rw [walkNode]; exact hv; intro _ _ h; cases h
+    · intro o src dst path names st
+      cases names with
+      | nil => rw [walkChildren]; exact .refl _ _
+      | cons name rest =>
+        rw [walkChildren]
+        simp only
+        split
+        · exact .refl _ _
+        · rename_i child hc
+          have hn := ihN o src dst (pathJoin path name) child st
+          split
+          · exact hn.trans (ihC _ _ _ _ _ _)
+          · split
+            · exact hn.trans (ihC _ _ _ _ _ _)
+            · exact hn
+          · exact hn
+    · exact wf_visit_ship_all fs cwd rules root fuel ihN
+
+/-- every entry `Pack` writes — any options, dereferencing included — passed the ignore tests of the
+rule set in force, under the name it has in the archive -/
+theorem wf_pack_ship_any (fs : FS) (cwd : Str) (o : PackOpts) (src : Str) :
+    ∀ e ∈ (pack fs cwd o src).1.entries, WfShipOK (pkRules fs cwd o src) e := by
+  have h0 : WfNew (WfShipOK (pkRules fs cwd o src)) pkEmpty (pack fs cwd o src).1 := by
+    rw [pk_pack_eq]
+    split
+    · exact .refl _ _
+    · split
+      · exact .refl _ _
+      · rw [pkFinish_fst]
+        exact (wf_walk_ship_all fs cwd _ _ packFuel).1 _ _ _ _ _ _
+  obtain ⟨L, e1, hL⟩ := h0
+  intro e he
+  rw [e1] at he
+  exact hL e (by simpa [pkEmpty] using he)
+
+/-- `WfShipOK` implies the weaker `PkNotExcluded` of Lemmas/PackInv -/
+theorem WfShipOK.notExcluded {rules : Option (List Rule)} {e : Entry} (h : WfShipOK rules e) :
+    PkNotExcluded rules e := by
+  obtain ⟨sub, _, _, hex, h | h⟩ := h
+  · exact ⟨sub, hex, Or.inr h⟩
+  · exact ⟨sub, hex, Or.inl h.2⟩
+
 /-! ## exactly what ships (no dereferencing, physical source directory) -/
 
 /-- the node's own path passes the ignore tests of the callback -/
@@ -365,7 +493,7 @@ theorem wf_visit_at {fs : FS} {cwd : Str} {o : PackOpts} {root : Str} {rs : List
   cases hex : (excludes rs (joinWith '/' rel)).1 with
   | true =>
     refine Or.inr ⟨fun hp => (by rw [hp.1.1] at hex; cases hex), st, [], ?_, by simp, Or.inr ⟨fun hk => (by rw [hk.1] at hex; cases hex), rfl⟩⟩
-    exact wf_visit_excluded fs cwd o (some rs) root root root fuel _ nd st _ h1 hex
+    exact wf_visit_excluded_same fs cwd o (some rs) root fuel _ nd st _ h1 hex
   | false =>
     have hkeptOf : (wfIsDir nd = true → (excludes rs (joinWith '/' rel ++ ['/'])).1 = false) → wfKept rs rel nd :=
       fun h => ⟨hex, h⟩
@@ -388,7 +516,8 @@ theorem wf_visit_at {fs : FS} {cwd : Str} {o : PackOpts} {root : Str} {rs : List
         | link t => cases hd
         | special => cases hd
         | dir perm mt =>
-          have hv := wf_visit_dir_excluded fs cwd o (some rs) root root root fuel _ perm mt st _ h1 hexd
+          have hv := wf_visit_dir_excluded fs cwd o (some rs) root root root fuel _ perm mt st _ _ h1
+            (by rw [rt_replaceFirst_same]; exact h1) hexd
           simp only [h2, ruleExcludes, hex, false_or, Bool.false_eq_true, if_false] at hv
           cases hdom : (excludes rs (joinWith '/' rel ++ ['/'])).2 with
           | true =>
@@ -1276,11 +1405,11 @@ minus those that do not ship, in the same order** -/
 theorem wf_pack_filter {fs : FS} {cwd : Str} {o : PackOpts} {src : Str} (ctx : RtCtx fs cwd o src)
     (hoff : o.applyIgnore = false)
     (hfuel : (pack fs cwd o src).2 ≠ .diverged)
-    (hfuel' : (pack fs cwd ⟨o.dereference, true, o.allow⟩ src).2 ≠ .diverged) :
-    (pack fs cwd ⟨o.dereference, true, o.allow⟩ src).1.entries =
+    (hfuel' : (pack fs cwd { o with applyIgnore := true } src).2 ≠ .diverged) :
+    (pack fs cwd { o with applyIgnore := true } src).1.entries =
       (pack fs cwd o src).1.entries.filter
         (fun e => wfShipB (loadIgnore fs cwd src) (entryRel e.name) e.isDir) := by
-  have ctx' : WfCtx fs cwd ⟨o.dereference, true, o.allow⟩ src (loadIgnore fs cwd src) :=
+  have ctx' : WfCtx fs cwd { o with applyIgnore := true } src (loadIgnore fs cwd src) :=
     ⟨ctx.noDeref, ctx.rootClean, ctx.phys, ctx.names, ctx.depth, fun r t hr _ => ctx.links r t hr⟩
   obtain ⟨_, Moff, hoffE, hsubOff⟩ := rt_pack_listing ctx hoff hfuel
   obtain ⟨_, Mon, honE, hsubOn⟩ := wf_pack_listing ctx' rfl hfuel'
